@@ -261,7 +261,9 @@ def match_finding(findings, prop, hit, ctx):
         if f["property"] != prop or hit["clause"] not in f["clauses"]:
             continue
         try:
-            if eval(f.get("when", "True"), {"__builtins__": {}}, dict(ctx, any=any, all=all, len=len, min=min, max=max, set=set, sum=sum)):
+            g = dict(ctx, any=any, all=all, len=len, min=min, max=max, set=set, sum=sum)
+            g["__builtins__"] = {}
+            if eval(f.get("when", "True"), g):
                 return f
         except Exception as ex:  # a broken predicate never hides a violation
             log("[findings] predicate of %s failed: %s" % (f["id"], ex))
@@ -284,3 +286,63 @@ def write_evidence(prop, tier, seed, level, coverage, wall, violations, assumpti
     with open(os.path.join(VERIF, "evidence", prop + ".json"), "w") as f:
         json.dump(ev, f, indent=1)
     return ev
+
+
+# --------------------------------------------------------------------------------------
+# sequential components: TLC as a case generator, Go replay
+
+def tlc_cases(module, cfg, out_path, consts=None, tag="gen", workers=1, timeout=900, simulate=None, depth=None, seed=None, extra_modules=(), prefix="CASE "):
+    """Run TLC on spec/<module> with spec/<cfg> (CONSTANTS optionally overridden by regex
+    substitution 'Name = value'), collect the JSON payload of every PrintT line starting with
+    prefix into out_path (one per line, appended). Returns TLC stats + number of cases."""
+    d = scratch(tag)
+    copy_specs(d, [module] + list(extra_modules))
+    txt = open(os.path.join(SPEC, cfg)).read()
+    for k, v in (consts or {}).items():
+        txt, n = re.subn(r"\b%s\s*=\s*[^\s]+" % re.escape(k), "%s = %s" % (k, v), txt)
+        if n == 0:
+            raise Infra("constant %s not found in %s" % (k, cfg))
+    open(os.path.join(d, cfg), "w").write(txt)
+    r = run_tlc(d, module, cfg, workers=workers, timeout=timeout, simulate=simulate, depth=depth, seed=seed)
+    ok_rc = (0,) if not simulate else (0, 124, 137)
+    n = 0
+    with open(out_path, "a") as f:
+        for line in r["out"].splitlines():
+            if line.startswith('"' + prefix):
+                try:
+                    s = json.loads(line)
+                except Exception:
+                    continue
+                f.write(s[len(prefix):] + "\n")
+                n += 1
+    if r["rc"] not in ok_rc or ("Error:" in r["out"] and not simulate):
+        raise Infra("TLC %s/%s failed rc=%s:\n%s" % (module, cfg, r["rc"], r["out"][-2500:]))
+    r["cases"] = n
+    r["dir"] = d
+    out = r.pop("out")
+    r["tail"] = out[-400:]
+    shutil.rmtree(d, ignore_errors=True)
+    return r
+
+
+def run_go_seq(test, cases_path, tag="seq", timeout=1200, env_extra=None):
+    """Run one Go replay test of the harness binary on a cases file; returns its result dict."""
+    binp = os.path.join(BIN, "harness.test")
+    d = scratch(tag)
+    outp = os.path.join(d, "result.json")
+    env = goenv()
+    env["VH_CASES"] = cases_path
+    env["VH_OUT"] = outp
+    env.update(env_extra or {})
+    try:
+        p = subprocess.run([binp, "-test.run", "^%s$" % test, "-test.timeout", "0"], cwd=d, env=env, stdout=subprocess.PIPE, stderr=subprocess.STDOUT, text=True, timeout=timeout)
+    except subprocess.TimeoutExpired:
+        raise Infra("go replay %s timed out" % test)
+    if not os.path.exists(outp):
+        # the replay process died: the history that killed it is a finding of the property, reported by the caller
+        return {"died": True, "rc": p.returncode, "tail": p.stdout[-3000:], "cases": 0, "steps": 0, "kinds": {}, "mismatches": []}
+    res = json.load(open(outp))
+    res["died"] = False
+    res["rc"] = p.returncode
+    shutil.rmtree(d, ignore_errors=True)
+    return res
